@@ -46,7 +46,7 @@ func (d *ManyToOne) Set(data GenericDataType) {
 
 		if old != nil &&
 			(*bucket)(old) != nil &&
-			(*bucket)(old).seq > writeIndex-uint64(len(d.buffer)) {
+			(*bucket)(old).seq+uint64(len(d.buffer)) > writeIndex {
 			log.Println("Diode set collision: consider using a larger diode")
 			continue
 		}
